@@ -6,3 +6,8 @@ import GoFlags.Props.C20
 #print axioms GoFlags.C20.closestLoop_spec
 #print axioms GoFlags.C20.closest_is_minimum
 #print axioms GoFlags.C20.closest_nil
+#print axioms GoFlags.C20.unknown_command_message
+#print axioms GoFlags.C20.missing_command_message
+#print axioms GoFlags.C20.diagnostic_names_are_the_visible_ones
+#print axioms GoFlags.C20.diagnostic_names_are_sorted
+#print axioms GoFlags.C20.suggestion_is_nearest_visible
